@@ -49,3 +49,15 @@ package safrole
 //@     invariant even: 0 <= k && k < types.EpochLength && 2*k < i ==> out[2*k] == (*t)[k]
 //@     invariant odd: 0 <= k && k < types.EpochLength && 2*k+1 < i ==> out[2*k+1] == (*t)[types.EpochLength-1-k]
 //@     invariant frame: frame_only()
+
+// GP (6.32): the identifiers must be in ascending order; `idgt` is the lexicographic "greater than" on 32 octets written
+// out (first differing octet decides), independent of bytes.Compare
+//@ pred idgt(a, b) = exists(k, 0, 32, a[k] > b[k] && forall(j, 0, k, a[j] == b[j]))
+//@ func VerifyTicketsOrder
+//@   props C23
+//@   ensures reject: exists(i, 1, len(tickets), idgt(tickets[i-1].ID, tickets[i].ID)) ==> result != nil
+//@   ensures accept: forall(i, 1, len(tickets), !idgt(tickets[i-1].ID, tickets[i].ID)) ==> result == nil
+//@   loop i#0
+//@     invariant range: i >= 1
+//@     invariant seen: forall(j, 1, i, j < len(tickets) ==> !idgt(tickets[j-1].ID, tickets[j].ID))
+//@     invariant frame: frame_only()
